@@ -264,7 +264,9 @@ func c17Client(proto string) *Client {
 // c17AsRequest rebuilds a server-side *http.Request from what arrived, so that the standard
 // parsers (ParseForm, ParseMultipartForm, MultipartReader) can be run on it.
 func c17AsRequest(s c17Seen) *http.Request {
-	m := s.Method
+	// net/http parses a urlencoded body only for POST, PUT and PATCH; the lanes ask what the
+	// parser makes of the bytes that arrived, whatever the method was.
+	m := "POST"
 	return &http.Request{Method: m, Header: s.Header.Clone(), Body: io.NopCloser(bytes.NewReader(s.Body)),
 		ContentLength: int64(len(s.Body)), URL: &url.URL{Path: "/"}}
 }
